@@ -114,6 +114,7 @@ def cases(tier):
     for i, (label, vals) in enumerate(alphabet_chunks(tier)):
         out.append({"kind": "table", "label": label, "chunk": i, "tier": tier})
     out.append({"kind": "shapes"})
+    out.append({"kind": "containers"})
     out.append({"kind": "fallback"})
     nmax = 3 if tier == "quick" else 4
     for cls in U.CLASSES:
@@ -199,6 +200,56 @@ def _shapes_case(res):
             res["findings"].append({"key": "C13:scalar:%s" % name, "msg": "scalar input differs", "detail": {}})
 
 
+def _containers_case(res):
+    """The gradient ratio may arrive in any numeric container: integer / float32 arrays of any
+    shape, Python and NumPy scalars, strided and read-only views.  The value must be the published
+    one for that ratio, and the argument must not be written to."""
+    ints = list(range(-6, 10))
+    for name in NAMES:
+        FL = pf.fluxLimiter(name)
+        want = np.array([float(ref(name, Fr(k))) for k in ints])
+        variants = []
+        for dt in (np.int64, np.int32, np.int8, np.float32, np.float64):
+            a = np.array(ints, dtype=dt)
+            variants += [("%s[16]" % dt.__name__, a, want), ("%s[4x4]" % dt.__name__, a.reshape(4, 4), want.reshape(4, 4)),
+                         ("%s[2x2x4]" % dt.__name__, a.reshape(2, 2, 4), want.reshape(2, 2, 4)),
+                         ("%s 0-d" % dt.__name__, np.array(ints[9], dtype=dt), want[9]),
+                         ("%s scalar" % dt.__name__, dt(ints[8]), want[8]), ("%s scalar" % dt.__name__, dt(ints[11]), want[11])]
+        for k in (-3, -2, -1, 0, 1, 2, 3, 5):
+            variants.append(("python int", k, want[ints.index(k)]))
+            variants.append(("python float", float(k), want[ints.index(k)]))
+        big = np.arange(-12, 20, dtype=float)
+        wbig = np.array([float(ref(name, Fr(int(k)))) for k in big])
+        variants.append(("strided view", big[::2], wbig[::2]))
+        variants.append(("reversed view", big[::-1], wbig[::-1]))
+        variants.append(("transposed view", big.reshape(4, 8).T, wbig.reshape(4, 8).T))
+        variants.append(("fortran order", np.asfortranarray(big.reshape(4, 8)), wbig.reshape(4, 8)))
+        ro = big.copy()
+        ro.flags.writeable = False
+        variants.append(("read-only array", ro, wbig))
+        for label, x, w in variants:
+            res["evals"] += 1
+            res["nontrivial"] += 1
+            before = np.array(x, copy=True)
+            try:
+                y = FL(x)
+            except Exception as e:
+                res["findings"].append({"key": "C13:container:%s:%s" % (name, label.split("[")[0]),
+                                        "msg": "fluxLimiter('%s') raises %s for r given as %s" % (name, type(e).__name__, label),
+                                        "detail": {}})
+                continue
+            y = np.asarray(y)
+            tol = (64 * float(np.finfo(np.float32).eps) if "float32" in label else 64 * EPS) * (1.0 + np.abs(w))
+            if y.shape != np.shape(x) or not np.all(np.abs(y.astype(float) - w) <= tol):
+                res["findings"].append({"key": "C13:container:%s:%s" % (name, label.split("[")[0]),
+                                        "msg": "fluxLimiter('%s') on r = %s given as %s returns %s, published values %s"
+                                               % (name, np.asarray(x).ravel()[:6].tolist(), label, y.ravel()[:6].tolist(),
+                                                  np.asarray(w).ravel()[:6].tolist()), "detail": {}})
+            if not np.array_equal(np.asarray(x), before):
+                res["findings"].append({"key": "C13:argument_modified:%s" % name,
+                                        "msg": "fluxLimiter('%s') modified its argument (%s)" % (name, label), "detail": {}})
+
+
 def _fallback_case(res):
     x = np.array([float(b) for b in BREAKS] + [0.3, 0.7, 1.7, 2.2, -0.2])
     sb = pf.fluxLimiter("SUPERBEE")(x)
@@ -257,6 +308,8 @@ def run_case(case):
         _table_case(case, res)
     elif k == "shapes":
         _shapes_case(res)
+    elif k == "containers":
+        _containers_case(res)
     elif k == "fallback":
         _fallback_case(res)
     elif k == "tvd":
